@@ -27,8 +27,10 @@ def sizes(tier, rng):
     # quick: two of {16,17,32,33}; 33 is always one of them because the (32,64] recursion class (tmatmul based
     # triangular inverses, block LU through tinverse) is only reachable above 32
     if tier == "quick":
-        return list(range(1, 11)) + sorted([rng.choice([16, 17, 32]), 33])
-    return list(range(1, 21)) + [31, 32, 33]
+        # 48: the block algorithms halve the matrix, so the NESTED (16,32] size classes of the triangular-inverse dispatchers are only
+        # reached from n >= 40 (found by a seeded defect in ut_inverse_dispatcher that n <= 33 cannot see)
+        return list(range(1, 11)) + sorted([rng.choice([16, 17, 32]), 33]) + [48]
+    return list(range(1, 21)) + [31, 32, 33, 40, 48]
 
 
 def case_inv(t, n, it, form):
